@@ -22,6 +22,8 @@ mod dot;
 mod ffi_helpers;
 mod regex;
 mod router_config;
+#[cfg(redirectionio_verif)]
+pub mod verif_hooks;
 #[cfg(feature = "wasmbind")]
 #[cfg(target_arch = "wasm32")]
 mod wasm_api;
